@@ -14,3 +14,26 @@ CONTRACTS = {
         mustfail="result == self.versions.get(name, 1)",
     ),
 }
+
+SAME_EXCEPT = ("forall_keys(lambda k: k == name or ((k in self.{d}) == old(k in self.{d}) and (k not in self.{d} or self.{d}[k] is old(self.{d}.get(k)))), self.{d})")
+
+CONTRACTS.update({
+    F + "GraphState.update_value": dict(
+        props=["C01", "C02", "C04", "C17"],
+        params={"self": STATE, "name": STR, "value": ANY},
+        returns=NONE_T,
+        imports={"_EMIT_SENTINEL": "hypergraph.nodes.base"},
+        ensures=[
+            "name in self.values and self.values[name] is value",
+            SAME_EXCEPT.format(d="values"),
+            "forall_keys(lambda k: k == name or ver(self, k) == old(ver(self, k)), self.versions)",
+            "ver(self, name) == old(ver(self, name)) or ver(self, name) == old(ver(self, name)) + 1",
+            # C17-live / C04: a new name, and every (re-)emission of an ordering signal, advances the version
+            "not (old(name not in self.values) or value is _EMIT_SENTINEL) or ver(self, name) == old(ver(self, name)) + 1",
+            # an identical re-production of a data value leaves the version alone (no spurious staleness)
+            "not (old(name in self.values) and value is old(self.values.get(name)) and value is not _EMIT_SENTINEL) or ver(self, name) == old(ver(self, name))",
+        ],
+        modifies=["self.values", "self.versions"],
+        mustfail="not (value is _EMIT_SENTINEL) or ver(self, name) == old(ver(self, name))",
+    ),
+})
